@@ -565,6 +565,22 @@ func (w *clWorld) step(mix string) string {
 	if !okMix {
 		wt = weights["mixed"]
 	}
+	if r.Intn(40) == 0 {
+		// governance changes the set of authorised uptimes while records of the old set may still be emitting
+		var sub []time.Duration
+		for _, u := range cltypes.SupportedUptimes {
+			if r.Bool() || u == time.Nanosecond {
+				sub = append(sub, u)
+			}
+		}
+		k := w.ch.App.ConcentratedLiquidityKeeper
+		p := k.GetParams(w.ch.Ctx)
+		p.AuthorizedUptimes = sub
+		k.SetParams(w.ch.Ctx, p)
+		w.uptimes = sub
+		w.c.Logf("governance: authorised uptimes = %v", sub)
+		return "governance-uptimes"
+	}
 	total := 0
 	for _, x := range wt {
 		total += x
